@@ -34,35 +34,55 @@ def gen_case(r, cid, cls, uni=False):
     else:
         nfl = r.randrange(1, 4)
         lo, hi = (len(pool) // 2, len(pool) // 2 + 1) if cls == "grow" else (0, len(pool))
-        earlier, cur = set(), set()   # mock store: its Prewrite (behind the Flush shim) does not overwrite the own lock, so
-        for f in range(nfl):          # a key is written in one generation only there; unistore cases re-flush keys
+        cur = set()
+        for f in range(nfl):
             for _ in range(r.randrange(1, 5)):
-                cand = [k for k in pool[max(0, lo):hi] if uni or k not in earlier] or [k for k in pool if uni or k not in earlier]
-                if not cand:
-                    break
-                k = r.choice(cand)
+                k = r.choice(pool[max(0, lo):hi] or pool)     # keys are re-flushed across generations
                 cur.add(k)
                 if r.random() < 0.2:
                     ops.append(["del", hx(k)])
                 else:
                     ops.append(["set", hx(k), hx(bytes([118, r.randrange(48, 58), r.randrange(48, 58)]))])
-                if uni and r.random() < 0.35:
+                if r.random() < 0.35:
                     ops.append(["get", hx(r.choice(pool))])
-                if uni and r.random() < 0.15:
+                if r.random() < 0.15:
                     ops.append(["bget", [hx(x) for x in r.sample(pool, r.randrange(1, 4))]])
             if not cur:
                 break
             ops.append(["flush"] if r.random() < 0.8 else ["flushnw"])
-            earlier |= cur; cur = set()
+            cur = set()
             if cls == "grow":
                 lo -= r.randrange(0, 3); hi += r.randrange(0, 3)
-        rest = [k for k in pool if uni or k not in earlier]
-        if r.random() < 0.4 and rest:
-            ops.append(["set", hx(r.choice(rest)), hx(b"tail")])   # left in the mutable buffer: flushed by Commit only
-        if uni:
-            ops.append(["bget", [hx(x) for x in pool[:6]]])
+        if r.random() < 0.4:
+            ops.append(["set", hx(r.choice(pool)), hx(b"tail")])   # left in the mutable buffer: flushed by Commit only
+        ops.append(["bget", [hx(x) for x in pool[:6]]])
         splits = sorted(set(r.sample(pool, r.randrange(0, 4))))
     end = r.choice(["commit", "rollback"])
+    rpc_splits = []
+    if cls == "regroup":
+        # a batch must be spread over several regions after a split the client has not seen: several keys per flush in one
+        # (cached) region, re-written by later generations; splits between flushes and right before the i-th Flush RPC
+        pool = KEYS[:10]
+        splits = sorted(set(r.sample([KEYS[0], KEYS[9], b"k0"], r.randrange(0, 2))))
+        ops, nfl = [], r.randrange(2, 5)
+        free = [k for k in pool[1:] if k not in splits]
+        for f in range(nfl):
+            for k in r.sample(pool, r.randrange(3, 7)):
+                ops.append(["del", hx(k)] if r.random() < 0.15 else ["set", hx(k), hx(bytes([103, 49 + f, r.randrange(48, 58)]))])
+            if r.random() < 0.5:
+                ops.append(["get", hx(r.choice(pool))])
+            if f > 0 and free and r.random() < 0.6:
+                sk = free.pop(r.randrange(len(free)))
+                ops.append(["split", hx(sk)])
+            ops.append(["flush"] if r.random() < 0.85 else ["flushnw"])
+            for k in r.sample(pool, 2):
+                ops.append(["get", hx(k)])
+        ops.append(["bget", [hx(x) for x in pool]])
+        for i in sorted(r.sample(range(1, 2 * nfl + 2), r.randrange(1, 3))):
+            if free:
+                rpc_splits.append([i, hx(free.pop(r.randrange(len(free))))])
+        return {"id": cid, "class": cls, "mode": "txn", "splits": [hx(x) for x in splits], "pre": pre, "ops": ops, "end": end,
+                "settle_ms": 2500, "rpc_splits": rpc_splits}
     return {"id": cid, "class": cls, "mode": "probe" if cls == "probe" else "txn", "splits": [hx(s) for s in splits],
             "pre": pre, "ops": ops, "end": end, "settle_ms": 2500}
 
@@ -88,6 +108,17 @@ def reference(case):
                 if v is not None:
                     m[k] = v
             reads.append(m)
+    # generation i = i-th Flush(true) of the buffer; it is handed the writes since the previous one
+    gens, cur = {}, {}
+    for op in case["ops"] + ([["flush"]] if case["end"] == "commit" else []):
+        if op[0] == "set":
+            cur[op[1]] = op[2]
+        elif op[0] == "del":
+            cur[op[1]] = ""
+        elif op[0] in ("flush", "flushnw"):
+            gens[len(gens) + 1] = cur
+            cur = {}
+    case["_gens"] = gens
     if case["mode"] == "probe":
         truth = {op[1]: b"pv".hex() for op in case["ops"] if op[0] == "set"}
     final = dict(pre)
@@ -131,9 +162,9 @@ def audit(case, res, model_final, model_res, kind, v, stats):
     if res.get("panic"):
         fails.append(("harness-panic", res["panic"]))
     reads, final = reference(case)
-    errs = [e for e in (res.get("op_errs") or []) if e] + ([res["end_err"]] if res.get("end_err") else [])
-    if kind == "uni":
-        errs = [r["err"] for r in res.get("results", []) if r.get("err")] + ([res["end_err"]] if res.get("end_err") else [])
+    errs = [r["err"] for r in (res.get("results") or []) if r.get("err")] + ([res["end_err"]] if res.get("end_err") else [])
+    layout = res.get("regions") if kind == "mock" else res.get("region_splits")
+    layout = case["splits"] if layout is None else layout
     if errs:
         fails.append(("no-unexpected-error", "; ".join(map(str, errs))[:300]))
     n = 0
@@ -146,7 +177,28 @@ def audit(case, res, model_final, model_res, kind, v, stats):
         n += 1
         if got_final.get(k) != exp:
             fails.append(("C16_resolve_covers/uniform-outcome", "after %s key %s reads %s, expected %s" % (case["end"], k, got_final.get(k), exp)))
-    if kind == "uni":
+    # C16_flush_once on the wire: every Flush RPC carries the generation of the buffer flush that produced it
+    if case["mode"] == "txn":
+        gens = case["_gens"]
+        cancelled = case["end"] == "rollback" and any(o[0] == "flushnw" for o in case["ops"])   # Rollback cancels a running flush
+        seen_g = {}
+        for f in res.get("flushes") or []:
+            n += 1
+            exp = gens.get(f["gen"])
+            bad = [kv for kv in f["muts"] if exp is None or exp.get(kv[0]) != kv[1]]
+            if bad:
+                fails.append(("C16_flush_once/rpc-generation", "Flush RPC with generation %s carries %s; flush %s of the buffer held %s (generations of the buffer flushes: %s)"
+                              % (f["gen"], bad[:3], f["gen"], exp, sorted(gens))))
+            seen_g.setdefault(f["gen"], {}).update({k: val for k, val in f["muts"]})
+        recs = [(f["gen"], frozenset(map(tuple, f["muts"]))) for f in res.get("flushes") or []]
+        if any(m2 < m1 for i, (g1, m1) in enumerate(recs) for (g2, m2) in recs[i + 1:]):
+            stats[kind + "_cases_with_regrouped_flush_batch"] = stats.get(kind + "_cases_with_regrouped_flush_batch", 0) + 1
+        if not cancelled:
+            for g, exp in gens.items():
+                n += 1
+                if exp and seen_g.get(g, {}) != exp and not any(b for b in fails if b[0].startswith("C16_flush_once")):
+                    fails.append(("C16_flush_once/rpc-generation", "buffer flush %s held %s, Flush RPCs of that generation carried %s" % (g, exp, seen_g.get(g, {}))))
+    if True:
         it = iter(reads)
         for op, r in zip(case["ops"], res.get("results", [])):
             if op[0] == "get":
@@ -174,13 +226,12 @@ def audit(case, res, model_final, model_res, kind, v, stats):
                 for e in mflog.split("|"):
                     g, _, b = e.partition(":")
                     mg[int(g)] = dict(x.split("=") for x in b.split(","))
-            cancelled = case["end"] == "rollback" and any(o[0] == "flushnw" for o in case["ops"])   # Rollback cancels a running flush
             if (byg != mg) if not cancelled else any(not set(m.items()) <= set(mg.get(g, {}).items()) for g, m in byg.items()):
                 corr.append("Flush RPCs per generation %s, model flush log %s" % (byg, mg))
         if model_res is not None and (res["pstart"] and res["pend"]):
             mset = set(model_res)
-            iset = {locate(case["splits"], s) if s else 0 for s in res["resolves"]}
-            need = {locate(case["splits"], k) for k in (mflushed.split(",") if mflushed != "-" else [])}
+            iset = {locate(layout, s) if s else 0 for s in res["resolves"]}
+            need = {locate(layout, k) for k in (mflushed.split(",") if mflushed != "-" else [])}
             n += 1
             if not need <= iset:
                 fails.append(("C16_resolve_covers", "ResolveLock reached regions %s, flushed keys live in regions %s" % (sorted(iset), sorted(need))))
@@ -206,8 +257,8 @@ def audit(case, res, model_final, model_res, kind, v, stats):
     return not fails and not corr
 
 
-def run_model(modelrun, cases):
-    """-> {id: (pstart, pend, flushedkeys, flog)}, {id: [regions]}"""
+def run_model(modelrun, cases, layouts):
+    """-> {id: (pstart, pend, flushedkeys, flog)}, {id: [regions]} ; layouts: id -> split keys at the time of the resolve"""
     lines = []
     for c in cases:
         lines += model_lines(c)
@@ -221,7 +272,7 @@ def run_model(modelrun, cases):
     for c in cases:
         fin = finals.get(c["id"])
         if fin and fin[0] != "-" and fin[1] != "-":
-            rl.append("R\t%s\t%s\t%s\t%s\t%s" % (c["id"], ",".join(c["splits"]) or "-", fin[0], fin[1], fin[2]))
+            rl.append("R\t%s\t%s\t%s\t%s\t%s" % (c["id"], ",".join(layouts.get(c["id"], c["splits"])) or "-", fin[0], fin[1], fin[2]))
     rc, out = vlib.sh([modelrun, "resolve"], inp="\n".join(rl) + "\n", timeout=600)
     regs = {}
     for l in out.splitlines():
@@ -248,7 +299,7 @@ def run(tier, seed, v, stats, robj):
         kinds = [robj["driver"].split("-")[-1]]
     else:
         n = {"quick": 420, "thorough": 1500}.get(tier, 420)
-        classes = ["single", "border", "rand", "grow", "probe", "rand", "border"]
+        classes = ["single", "border", "rand", "grow", "probe", "regroup", "regroup"]
         cases = [gen_case(r, "m%d-%d" % (seed, i), classes[i % len(classes)]) for i in range(n)]
         kinds = ["mock"] + (["uni"] if tier == "thorough" else [])
     if "mock" in kinds:
@@ -265,7 +316,7 @@ def run(tier, seed, v, stats, robj):
         if rc != 0 or len(results) != len(cases):
             v.violation({"kind": "harness", "correspondence": "pipelinedtxn mock driver", "error": "rc=%d, %d/%d results: %s" % (rc, len(results), len(cases), out[-600:])}, has_input=False)
         else:
-            finals, regs = run_model(modelrun, cases)
+            finals, regs = run_model(modelrun, cases, {i: o.get("regions") or [] for i, o in results.items()})
             distinct = set()
             for c in cases:
                 audit(c, results[c["id"]], finals.get(c["id"]), regs.get(c["id"]), "mock", v, stats)
@@ -275,7 +326,7 @@ def run(tier, seed, v, stats, robj):
             stats["commit_cases"] = stats.get("commit_cases", 0) + len(cases)
             stats["commit_nontrivial"] = stats.get("commit_nontrivial", 0) + len(distinct)
             stats["commit_samples"] = [json.dumps({k: c[k] for k in ("splits", "ops", "end", "mode")})[:300] for c in cases[:3]]
-            stats["commit_rule"] = "mock store: seeded cases in classes single (one key, one flush) / border (largest flushed key = a region start) / rand / grow (bounds widen over several flushes) / probe (direct Prewrite + CommitterProbe.ResolveFlushedLocks), 1-4 regions, commit or rollback; distinct = distinct (layout, ops, end, mode)"
+            stats["commit_rule"] = "mock store: seeded cases in classes single (one key, one flush) / border (largest flushed key = a region start) / rand / grow (bounds widen over several flushes) / regroup (keys re-flushed across generations, region splits between flushes and right before the i-th Flush RPC so that batches are regrouped after EpochNotMatch) / probe (direct Prewrite + CommitterProbe.ResolveFlushedLocks), 1-4 regions, commit or rollback; distinct = distinct (layout, ops, end, mode)"
     if "uni" in kinds:
         run_unistore(tier, seed, v, stats, robj, r)
 
@@ -289,7 +340,7 @@ def run_unistore(tier, seed, v, stats, robj, r):
     if robj and robj.get("driver") == "pipelinedtxn-uni":
         cases = [robj["case"]]
     else:
-        classes = ["single", "border", "rand", "grow", "rand"]
+        classes = ["single", "border", "rand", "grow", "regroup", "regroup"]
         cases = [gen_case(r, "u%d-%d" % (seed, i), classes[i % len(classes)], uni=True) for i in range(320)]
     cf = os.path.join(vlib.BUILD, "c16", "uni-%d.json" % seed)
     json.dump(cases, open(cf, "w"))
